@@ -133,6 +133,10 @@ func parse(byteData []byte) (*DisallowedCerts, error) {
 				err := errors.New("SST does not use ASN1 encoding")
 				return nil, err
 			}
+			if int64(len) > int64(bytesReader.Len()) {
+				// the element claims more bytes than the input holds
+				return nil, errors.New("SST certificate element is truncated")
+			}
 			certChain := make([]byte, len)
 			binary.Read(bytesReader, binary.LittleEndian, &certChain)
 			certs = append(certs, certChain)
@@ -145,7 +149,10 @@ func parse(byteData []byte) (*DisallowedCerts, error) {
 	disallowed.IssuerLists = map[string]*IssuerList{}
 
 	for i := range certs {
-		cert, _ := x509.ParseCertificate(certs[i])
+		cert, err := x509.ParseCertificate(certs[i])
+		if err != nil {
+			return nil, err
+		}
 		entry := &Entry{
 			SerialNumber: cert.SerialNumber,
 		}
